@@ -1,10 +1,12 @@
 (** C05, part 2: products.  Everything here rests on the correctness of the normal-ordering
     routine (PV.NormalizeProofs: normalize_sound, normalize_total): the matrix of A*B is the
     product of the matrices, commutator / anticommutator, the canonical anticommutation
-    relations as computed by the algorithm itself, and the commutation test.
+    relations as computed by the algorithm itself, the commutation test, associativity of the
+    matrices of products, and completeness of the equality test (linear independence of
+    normal-ordered monomials).
 
-    Specification side: PV.PolySem.  No axioms. *)
-Require Import Bool List Arith Lia ZArith Ring Ring_theory.
+    Specification side: PV.PolySem.  Every result is closed under the global context. *)
+Require Import Bool List Arith Lia ZArith Ring Ring_theory Sorted.
 From PV Require Import Outcome Fock Poly PolySem NormalizeProofs AlgebraBasics.
 Import ListNotations.
 
@@ -342,3 +344,630 @@ Theorem commutes_sound : commutes_sound_stmt K k0 k1 kadd kmul ksub kopp kzero.
 Proof. intros Hring. apply (commutes_sound_gen K k0 k1 kadd kmul ksub kopp kzero Hring). Qed.
 
 End Statements.
+
+(** * Products stay within the modes of their factors; associativity of the matrices *)
+
+Section Range.
+Variable K : Type.
+Variables (kadd kmul : K -> K -> K) (kopp : K -> K).
+Variable kzero : K -> bool.
+Variable M : nat.
+
+Local Notation insert := (insert K kadd kzero).
+Local Notation pass := (pass K kopp).
+Local Notation nai := (normalize_and_insert K kadd kopp kzero).
+Local Notation normalize := (normalize K kadd kopp kzero).
+Local Notation pmul := (pmul K kadd kmul kopp kzero).
+Local Notation poly_in_range := (poly_in_range K).
+
+Lemma insert_range : forall m c p, mono_in_range M m -> poly_in_range M p ->
+  poly_in_range M (insert m c p).
+Proof.
+  intros m c p Hm. unfold PolySem.poly_in_range. induction p as [|[m' c'] p IH]; intro Hp.
+  - cbn [Poly.insert]. constructor; [exact Hm|constructor].
+  - cbn [Poly.insert]. inversion Hp as [|x l Hh Ht]; subst x l.
+    destruct (mono_compare m m').
+    + cbv zeta. destruct (kzero (kadd c' c)); [exact Ht|]. constructor; [exact Hh|exact Ht].
+    + constructor; [exact Hm|exact Hp].
+    + constructor; [exact Hh|apply IH; exact Ht].
+Qed.
+
+Lemma pass_cons' : forall rec d p cur r c tgt sw,
+  pass rec d p (cur :: r) c tgt sw =
+  if op_eqb p cur then PassVanish K tgt
+  else if op_gtb p cur then
+    match (if op_eqb p (flip_type cur) then rec (rev d ++ r) c tgt else Done tgt) with
+    | Done tgt' => pass rec (cur :: d) p r (kopp c) tgt' true
+    | e => PassFail K e
+    end
+  else pass rec (p :: d) cur r c tgt sw.
+Proof.
+  intros rec d p cur r c tgt sw. cbn [Poly.pass].
+  destruct (op_eqb p cur); [reflexivity|].
+  destruct (op_gtb p cur); [|reflexivity].
+  destruct (if op_eqb p (flip_type cur) then rec (rev d ++ r) c tgt else Done tgt); reflexivity.
+Qed.
+
+Lemma pass_range : forall rec,
+  (forall m c tgt tgt', mono_in_range M m -> poly_in_range M tgt -> rec m c tgt = Done tgt' ->
+     poly_in_range M tgt') ->
+  forall rest d p c tgt sw,
+  poly_in_range M tgt -> mono_in_range M d -> op_idx p < M -> mono_in_range M rest ->
+  match pass rec d p rest c tgt sw with
+  | PassVanish _ tgt' => poly_in_range M tgt'
+  | PassEnd _ m' _ tgt' _ => poly_in_range M tgt' /\ mono_in_range M m'
+  | PassFail _ e => forall x, e <> Done x
+  end.
+Proof.
+  intros rec Hrec. induction rest as [|cur rest IH]; intros d p c tgt sw Ht Hd Hp Hr.
+  - cbn [Poly.pass]. split; [exact Ht|]. unfold mono_in_range. apply Forall_rev.
+    constructor; [exact Hp|exact Hd].
+  - rewrite pass_cons'. inversion Hr as [|x l Hcur Hrest]; subst x l.
+    destruct (op_eqb p cur); [exact Ht|].
+    destruct (op_gtb p cur).
+    + destruct (op_eqb p (flip_type cur)).
+      * destruct (rec (rev d ++ rest) c tgt) as [tgt1| | | |] eqn:Er; try (intros x; discriminate).
+        apply IH; auto; [|constructor; assumption].
+        apply (Hrec _ _ _ _ (proj2 (Forall_app _ _ _) (conj (Forall_rev Hd) Hrest)) Ht Er).
+      * apply IH; auto. constructor; assumption.
+    + apply IH; auto. constructor; assumption.
+Qed.
+
+Lemma nai_range : forall f m c tgt tgt', mono_in_range M m -> poly_in_range M tgt ->
+  nai f m c tgt = Done tgt' -> poly_in_range M tgt'.
+Proof.
+  induction f as [|f IHf]; intros m c tgt tgt' Hm Ht H; [discriminate|].
+  rewrite AlgebraProofs.nai_S in H.
+  destruct m as [|first [|x r]].
+  - inversion H; subst. apply insert_range; assumption.
+  - inversion H; subst. apply insert_range; assumption.
+  - inversion Hm as [|y l Hfirst Hrest]; subst y l.
+    pose proof (pass_range (nai f) IHf (x :: r) [] first c tgt false Ht (Forall_nil _) Hfirst Hrest) as HP.
+    destruct (pass (nai f) [] first (x :: r) c tgt false) as [tgt1|m' c' tgt1 [|]|e].
+    + inversion H; subst. exact HP.
+    + destruct HP as [Ht1 Hm1]. apply (IHf _ _ _ _ Hm1 Ht1 H).
+    + destruct HP as [Ht1 Hm1]. inversion H; subst. apply insert_range; assumption.
+    + exfalso. apply (HP tgt'). exact H.
+Qed.
+
+Lemma normalize_range : forall m c tgt tgt', mono_in_range M m -> poly_in_range M tgt ->
+  normalize m c tgt = Done tgt' -> poly_in_range M tgt'.
+Proof. intros m c tgt tgt'. unfold Poly.normalize. apply nai_range. Qed.
+
+Lemma pmul_inner_range : forall b m c acc0 r,
+  mono_in_range M m -> poly_in_range M b -> poly_in_range M acc0 ->
+  pmul_inner K kadd kmul kopp kzero m c b (Done acc0) = Done r -> poly_in_range M r.
+Proof.
+  unfold pmul_inner.
+  induction b as [|[m' c'] b IH]; intros m c acc0 r Hm Hb Hacc; cbn [fold_left bind fst snd].
+  - intro H. assert (E : r = acc0) by congruence. subst r. exact Hacc.
+  - inversion Hb as [|x l Hm' Hb']; subst x l. cbn [fst] in Hm'.
+    destruct (norm_total K kadd kopp kzero (m ++ m') (kmul c c') acc0) as [r1 Hr1]. rewrite Hr1.
+    apply (IH m c r1 r Hm Hb').
+    apply (normalize_range _ _ _ _ (AlgebraProofs.mono_in_range_app M m m' Hm Hm') Hacc Hr1).
+Qed.
+
+Lemma pmul_outer_range : forall a b acc0 r,
+  poly_in_range M a -> poly_in_range M b -> poly_in_range M acc0 ->
+  pmul_outer K kadd kmul kopp kzero a b (Done acc0) = Done r -> poly_in_range M r.
+Proof.
+  unfold pmul_outer.
+  induction a as [|[m c] a IH]; intros b acc0 r Ha Hb Hacc; cbn [fold_left fst snd].
+  - intro H. assert (E : r = acc0) by congruence. subst r. exact Hacc.
+  - inversion Ha as [|x l Hm Ha']; subst x l. cbn [fst] in Hm.
+    destruct (pmul_inner_total K kadd kmul kopp kzero b m c acc0) as [r1 Hr1]. rewrite Hr1.
+    apply (IH b r1 r Ha' Hb). apply (pmul_inner_range b m c acc0 r1 Hm Hb Hacc Hr1).
+Qed.
+
+(** the product only mentions modes that its factors mention *)
+Lemma pmul_range : forall a b ab, poly_in_range M a -> poly_in_range M b ->
+  pmul a b = Done ab -> poly_in_range M ab.
+Proof.
+  intros a b ab Ha Hb H. rewrite pmul_unfold in H.
+  apply (pmul_outer_range a b [] ab Ha Hb (Forall_nil _) H).
+Qed.
+
+End Range.
+
+Section Assoc.
+Variable K : Type.
+Variables (k0 k1 : K) (kadd kmul ksub : K -> K -> K) (kopp : K -> K).
+Variable kzero : K -> bool.
+Hypothesis Hring : ring_ok K k0 k1 kadd kmul ksub kopp kzero.
+
+Let Rth : ring_theory k0 k1 kadd kmul ksub kopp (@eq K) := proj1 Hring.
+Add Ring Kring4 : Rth.
+
+Local Notation cp := (coef_poly K k0 k1 kadd kmul kopp).
+Local Notation ksum := (@ksum K k0 kadd _).
+Local Notation pmul := (pmul K kadd kmul kopp kzero).
+Local Notation poly_in_range := (poly_in_range K).
+
+(** (A*B)*C and A*(B*C), both as computed by operator*=, have the same matrix *)
+Lemma mul_assoc_sem : forall (M : nat) (a b c ab bc abc abc' : poly K),
+  poly_in_range M a -> poly_in_range M b -> poly_in_range M c ->
+  pmul a b = Done ab -> pmul ab c = Done abc ->
+  pmul b c = Done bc -> pmul a bc = Done abc' ->
+  forall s t, length s = M -> length t = M -> cp abc s t = cp abc' s t.
+Proof.
+  intros M a b c ab bc abc abc' Ha Hb Hc Eab Eabc Ebc Eabc' s t Hs Ht.
+  pose proof (pmul_range K kadd kmul kopp kzero M a b ab Ha Hb Eab) as Hab.
+  pose proof (pmul_range K kadd kmul kopp kzero M b c bc Hb Hc Ebc) as Hbc.
+  rewrite (pmul_sound K k0 k1 kadd kmul ksub kopp kzero Hring M ab c abc s t Hab Hc Hs Ht Eabc).
+  rewrite (pmul_sound K k0 k1 kadd kmul ksub kopp kzero Hring M a bc abc' s t Ha Hbc Hs Ht Eabc').
+  transitivity (ksum (all_states M) (fun u => ksum (all_states M) (fun v =>
+                  kmul (cp a v t) (kmul (cp b u v) (cp c s u))))).
+  - apply ksum_ext. intros u Hu. apply all_states_length in Hu.
+    rewrite (pmul_sound K k0 k1 kadd kmul ksub kopp kzero Hring M a b ab u t Ha Hb Hu Ht Eab).
+    rewrite <- (ksum_scale_r K k0 k1 kadd kmul ksub kopp kzero Hring).
+    apply ksum_ext. intros v _. ring.
+  - rewrite (ksum_swap K k0 k1 kadd kmul ksub kopp kzero Hring).
+    apply ksum_ext. intros v Hv. apply all_states_length in Hv.
+    rewrite (pmul_sound K k0 k1 kadd kmul ksub kopp kzero Hring M b c bc s v Hb Hc Hs Hv Ebc).
+    rewrite <- (ksum_scale_l K k0 k1 kadd kmul ksub kopp kzero Hring).
+    reflexivity.
+Qed.
+
+End Assoc.
+
+(** * Completeness of the equality test: linear independence of normal-ordered monomials *)
+
+(** ** Strictly increasing index lists *)
+
+Lemma sorted_head_lt : forall (l : list nat) a x, Sorted lt (a :: l) -> In x l -> a < x.
+Proof.
+  intros l a x H Hin.
+  assert (F : Forall (lt a) l).
+  { apply Sorted_extends; [intros p q r; apply Nat.lt_trans | exact H]. }
+  rewrite Forall_forall in F. apply F; exact Hin.
+Qed.
+
+Lemma sorted_nodup : forall l : list nat, Sorted lt l -> NoDup l.
+Proof.
+  induction l as [|a l IH]; intro H; constructor.
+  - intro Hin. apply (sorted_head_lt l a a H) in Hin. lia.
+  - apply IH. inversion H; assumption.
+Qed.
+
+Lemma sorted_ext : forall l1 l2 : list nat, Sorted lt l1 -> Sorted lt l2 ->
+  (forall x, In x l1 <-> In x l2) -> l1 = l2.
+Proof.
+  induction l1 as [|a l1 IH]; intros l2 S1 S2 H.
+  - destruct l2 as [|b l2]; [reflexivity|]. destruct (proj2 (H b) (or_introl eq_refl)).
+  - destruct l2 as [|b l2]; [destruct (proj1 (H a) (or_introl eq_refl))|].
+    assert (Eab : a = b).
+    { destruct (proj1 (H a) (or_introl eq_refl)) as [E|Ha]; [congruence|].
+      destruct (proj2 (H b) (or_introl eq_refl)) as [E|Hb]; [congruence|].
+      apply (sorted_head_lt _ _ _ S2) in Ha. apply (sorted_head_lt _ _ _ S1) in Hb. lia. }
+    subst b. f_equal. apply IH.
+    + inversion S1; assumption.
+    + inversion S2; assumption.
+    + intro x. split; intro Hx.
+      * destruct (proj1 (H x) (or_intror Hx)) as [E|Hx']; [|exact Hx'].
+        apply (sorted_head_lt _ _ _ S1) in Hx. lia.
+      * destruct (proj2 (H x) (or_intror Hx)) as [E|Hx']; [|exact Hx'].
+        apply (sorted_head_lt _ _ _ S2) in Hx. lia.
+Qed.
+
+(** a normal-ordered monomial is a block of creators followed by a block of annihilators,
+    each with strictly increasing indices *)
+Lemma normal_split : forall m, mono_normal m ->
+  exists I J, m = map cdag I ++ map cann J /\ Sorted lt I /\ Sorted lt J.
+Proof.
+  induction m as [|a t IH]; intro H.
+  - exists [], []. repeat split; constructor.
+  - change (match t with [] => True | b :: _ => op_compare a b = Lt end /\ mono_normal t) in H.
+    destruct H as [Hh Ht]. destruct (IH Ht) as [I [J [E [SI SJ]]]]. subst t.
+    destruct a as [[|] i].
+    + destruct I as [|i' I].
+      * exists [], (i :: J). cbn [map app]. repeat split; [constructor|].
+        constructor; [exact SJ|]. destruct J as [|j J]; constructor.
+        cbn [map app] in Hh. unfold op_compare, cann in Hh. cbn [fst snd] in Hh.
+        apply Nat.compare_lt_iff; exact Hh.
+      * cbn [map app] in Hh. unfold op_compare, cdag in Hh. cbn [fst snd] in Hh. discriminate.
+    + exists (i :: I), J. cbn [map app]. repeat split; [|exact SJ].
+      constructor; [exact SI|]. destruct I as [|i' I]; constructor.
+      cbn [map app] in Hh. unfold op_compare, cdag in Hh. cbn [fst snd] in Hh.
+      apply Nat.compare_lt_iff; exact Hh.
+Qed.
+
+(** ** Bit strings *)
+
+Definition mem (i : nat) (l : list nat) : bool := existsb (Nat.eqb i) l.
+
+Lemma mem_In : forall i l, mem i l = true <-> In i l.
+Proof.
+  intros i l. unfold mem. rewrite existsb_exists. split.
+  - intros [x [Hx E]]. apply Nat.eqb_eq in E. subst; exact Hx.
+  - intro H. exists i. split; [exact H|apply Nat.eqb_refl].
+Qed.
+
+Lemma mem_notIn : forall i l, ~ In i l -> mem i l = false.
+Proof.
+  intros i l H. destruct (mem i l) eqn:E; [|reflexivity]. apply mem_In in E. contradiction.
+Qed.
+
+Lemma count_occ_cons : forall b s, count_occ (b :: s) = (if b then 1 else 0) + count_occ s.
+Proof. intros b s. unfold count_occ. cbn [filter]. destruct b; reflexivity. Qed.
+
+Lemma count_occ_upd_false : forall i s, nth i s false = true ->
+  S (count_occ (upd i false s)) = count_occ s.
+Proof.
+  induction i as [|i IH]; destruct s as [|b s]; cbn [nth upd]; intro H; try discriminate.
+  - subst b. rewrite !count_occ_cons. reflexivity.
+  - rewrite !count_occ_cons. rewrite <- (IH s H). lia.
+Qed.
+
+Lemma count_occ_upd_true : forall i s, i < length s -> nth i s false = false ->
+  count_occ (upd i true s) = S (count_occ s).
+Proof.
+  induction i as [|i IH]; destruct s as [|b s]; cbn [nth upd length]; intros L H; try lia.
+  - subst b. rewrite !count_occ_cons. reflexivity.
+  - rewrite !count_occ_cons. rewrite (IH s) by (lia || exact H). lia.
+Qed.
+
+(** the state of length M whose occupied modes are exactly those of J *)
+Definition st_of (M : nat) (J : list nat) : state := map (fun i => mem i J) (seq 0 M).
+
+Lemma st_of_length : forall M J, length (st_of M J) = M.
+Proof. intros. unfold st_of. rewrite map_length, seq_length. reflexivity. Qed.
+
+Lemma nth_st_of : forall M J i, nth i (st_of M J) false = (i <? M) && mem i J.
+Proof.
+  intros M J i. destruct (i <? M) eqn:L.
+  - apply Nat.ltb_lt in L. unfold st_of.
+    rewrite (nth_indep _ false (mem 0 J)) by (rewrite map_length, seq_length; exact L).
+    rewrite (map_nth (fun i => mem i J)). rewrite seq_nth by exact L. reflexivity.
+  - apply Nat.ltb_ge in L. rewrite nth_overflow by (rewrite st_of_length; exact L). reflexivity.
+Qed.
+
+(** ** Action of a block of annihilators / creators *)
+
+Lemma act_op_cann_inv : forall j s sg u, act_op (cann j) s = Done (Some (sg, u)) ->
+  j < length s /\ nth j s false = true /\ u = upd j false s.
+Proof.
+  intros j s sg u. unfold act_op. cbn [op_idx op_ann cann fst snd negb].
+  destruct (j <? length s) eqn:L; try discriminate. apply Nat.ltb_lt in L.
+  destruct (nth j s false); cbn [eqb]; try discriminate.
+  intro H; inversion H; auto.
+Qed.
+
+Lemma act_op_cdag_inv : forall j s sg u, act_op (cdag j) s = Done (Some (sg, u)) ->
+  j < length s /\ nth j s false = false /\ u = upd j true s.
+Proof.
+  intros j s sg u. unfold act_op. cbn [op_idx op_ann cdag fst snd negb].
+  destruct (j <? length s) eqn:L; try discriminate. apply Nat.ltb_lt in L.
+  destruct (nth j s false); cbn [eqb]; try discriminate.
+  intro H; inversion H; auto.
+Qed.
+
+Lemma act_canns : forall J s sg u, act_mono (map cann J) s = Done (Some (sg, u)) ->
+  length u = length s /\
+  (forall j, In j J -> nth j s false = true) /\
+  (forall i, nth i u false = nth i s false && negb (mem i J)) /\
+  count_occ u + length J = count_occ s.
+Proof.
+  induction J as [|j J IH]; intros s sg u; cbn [map act_mono].
+  - intro H. assert (E : u = s) by congruence. subst u.
+    repeat split; [intros j []| |cbn [length]; lia].
+    intro i. unfold mem. cbn [existsb negb]. rewrite andb_true_r. reflexivity.
+  - destruct (act_mono (map cann J) s) as [[[sg1 u1]|]| | | |] eqn:E1; try discriminate.
+    destruct (act_op (cann j) u1) as [[[sg2 u2]|]| | | |] eqn:E2; try discriminate.
+    intro H. assert (E : u2 = u) by congruence. subst u2. clear H.
+    destruct (IH _ _ _ E1) as [L1 [O1 [N1 C1]]].
+    destruct (act_op_cann_inv _ _ _ _ E2) as [Lj [Nj Eu]]. subst u.
+    split; [rewrite upd_length; exact L1|]. split; [|split].
+    + intros x [Ex|Hx]; [subst x|apply O1; exact Hx].
+      rewrite N1 in Nj. apply andb_true_iff in Nj. tauto.
+    + intro i. unfold mem. cbn [existsb]. destruct (Nat.eqb i j) eqn:Eij.
+      * apply Nat.eqb_eq in Eij. subst i. rewrite nth_upd_same by exact Lj.
+        cbn [orb negb]. rewrite andb_false_r. reflexivity.
+      * apply Nat.eqb_neq in Eij. rewrite nth_upd_other by congruence. cbn [orb]. apply N1.
+    + cbn [length]. rewrite <- C1, <- (count_occ_upd_false j u1 Nj). lia.
+Qed.
+
+Lemma act_cdags : forall I s sg u, act_mono (map cdag I) s = Done (Some (sg, u)) ->
+  length u = length s /\
+  (forall i, nth i u false = nth i s false || mem i I) /\
+  count_occ u = count_occ s + length I.
+Proof.
+  induction I as [|j I IH]; intros s sg u; cbn [map act_mono].
+  - intro H. assert (E : u = s) by congruence. subst u.
+    repeat split; [|cbn [length]; lia].
+    intro i. unfold mem. cbn [existsb]. rewrite orb_false_r. reflexivity.
+  - destruct (act_mono (map cdag I) s) as [[[sg1 u1]|]| | | |] eqn:E1; try discriminate.
+    destruct (act_op (cdag j) u1) as [[[sg2 u2]|]| | | |] eqn:E2; try discriminate.
+    intro H. assert (E : u2 = u) by congruence. subst u2. clear H.
+    destruct (IH _ _ _ E1) as [L1 [N1 C1]].
+    destruct (act_op_cdag_inv _ _ _ _ E2) as [Lj [Nj Eu]]. subst u.
+    split; [rewrite upd_length; exact L1|]. split.
+    + intro i. unfold mem. cbn [existsb]. destruct (Nat.eqb i j) eqn:Eij.
+      * apply Nat.eqb_eq in Eij. subst i. rewrite nth_upd_same by exact Lj.
+        cbn [orb]. rewrite orb_true_r. reflexivity.
+      * apply Nat.eqb_neq in Eij. rewrite nth_upd_other by congruence. cbn [orb]. apply N1.
+    + cbn [length]. rewrite (count_occ_upd_true j u1 Lj Nj), C1. lia.
+Qed.
+
+Lemma act_canns_ex : forall J s, NoDup J ->
+  (forall j, In j J -> j < length s /\ nth j s false = true) ->
+  exists sg u, act_mono (map cann J) s = Done (Some (sg, u)).
+Proof.
+  induction J as [|j J IH]; intros s ND H; cbn [map act_mono].
+  - eauto.
+  - inversion ND as [|x l Hnin ND']; subst x l.
+    destruct (IH s ND') as [sg1 [u1 E1]]; [intros; apply H; right; assumption|].
+    rewrite E1. destruct (act_canns _ _ _ _ E1) as [L1 [_ [N1 _]]].
+    destruct (H j (or_introl eq_refl)) as [Lj Nj].
+    rewrite act_op_cann by (rewrite L1; exact Lj).
+    rewrite N1, Nj, (mem_notIn _ _ Hnin). cbn [negb andb]. eauto.
+Qed.
+
+Lemma act_cdags_ex : forall I s, NoDup I ->
+  (forall j, In j I -> j < length s /\ nth j s false = false) ->
+  exists sg u, act_mono (map cdag I) s = Done (Some (sg, u)).
+Proof.
+  induction I as [|j I IH]; intros s ND H; cbn [map act_mono].
+  - eauto.
+  - inversion ND as [|x l Hnin ND']; subst x l.
+    destruct (IH s ND') as [sg1 [u1 E1]]; [intros; apply H; right; assumption|].
+    rewrite E1. destruct (act_cdags _ _ _ _ E1) as [L1 [N1 _]].
+    destruct (H j (or_introl eq_refl)) as [Lj Nj].
+    rewrite act_op_cdag by (rewrite L1; exact Lj).
+    rewrite N1, Nj, (mem_notIn _ _ Hnin). cbn [orb]. eauto.
+Qed.
+
+(** ** The separating pair of states of a normal-ordered monomial *)
+
+Lemma sep_exists : forall M I0 J0, Sorted lt I0 -> Sorted lt J0 ->
+  (forall i, In i I0 -> i < M) -> (forall j, In j J0 -> j < M) ->
+  exists sg0 t0, act_mono (map cdag I0 ++ map cann J0) (st_of M J0) = Done (Some (sg0, t0)).
+Proof.
+  intros M I0 J0 SI SJ RI RJ.
+  destruct (act_canns_ex J0 (st_of M J0) (sorted_nodup _ SJ)) as [sga [u0 Ea]].
+  { intros j Hj. rewrite st_of_length, nth_st_of.
+    split; [apply RJ; exact Hj|].
+    rewrite (proj2 (Nat.ltb_lt j M) (RJ j Hj)), (proj2 (mem_In j J0) Hj). reflexivity. }
+  destruct (act_canns _ _ _ _ Ea) as [La [_ [Na _]]].
+  destruct (act_cdags_ex I0 u0 (sorted_nodup _ SI)) as [sgc [t0 Ec]].
+  { intros i Hi. rewrite La, st_of_length. split; [apply RI; exact Hi|].
+    rewrite Na, nth_st_of. destruct (i <? M), (mem i J0); reflexivity. }
+  rewrite act_mono_app', Ea, Ec. eauto.
+Qed.
+
+Lemma sep_unique : forall M I0 J0 I J sg0 sg t0,
+  Sorted lt I0 -> Sorted lt J0 -> Sorted lt I -> Sorted lt J ->
+  length I0 + length J0 <= length I + length J ->
+  act_mono (map cdag I0 ++ map cann J0) (st_of M J0) = Done (Some (sg0, t0)) ->
+  act_mono (map cdag I ++ map cann J) (st_of M J0) = Done (Some (sg, t0)) ->
+  I = I0 /\ J = J0.
+Proof.
+  intros M I0 J0 I J sg0 sg t0 SI0 SJ0 SI SJ Hlen. rewrite !act_mono_app'.
+  destruct (act_mono (map cann J0) (st_of M J0)) as [[[sga0 u0]|]| | | |] eqn:Ea0; try discriminate.
+  destruct (act_mono (map cdag I0) u0) as [[[sgc0 t0']|]| | | |] eqn:Ec0; try discriminate.
+  intro H. assert (E : t0' = t0) by congruence. subst t0'. clear H.
+  destruct (act_mono (map cann J) (st_of M J0)) as [[[sga u]|]| | | |] eqn:Ea; try discriminate.
+  destruct (act_mono (map cdag I) u) as [[[sgc t']|]| | | |] eqn:Ec; try discriminate.
+  intro H. assert (E : t' = t0) by congruence. subst t'. clear H.
+  destruct (act_canns _ _ _ _ Ea0) as [_ [_ [Na0 Ca0]]].
+  destruct (act_cdags _ _ _ _ Ec0) as [_ [Nc0 Cc0]].
+  destruct (act_canns _ _ _ _ Ea) as [_ [Oa [Na Ca]]].
+  destruct (act_cdags _ _ _ _ Ec) as [_ [Nc Cc]].
+  assert (HJ : J = J0).
+  { apply sorted_ext; [exact SJ|exact SJ0|].
+    assert (Inc : incl J J0).
+    { intros j Hj. specialize (Oa j Hj). rewrite nth_st_of in Oa.
+      apply andb_true_iff in Oa. apply mem_In. tauto. }
+    assert (Inc' : incl J0 J).
+    { apply NoDup_length_incl; [apply sorted_nodup; exact SJ | lia | exact Inc]. }
+    intro x. split; [apply Inc|apply Inc']. }
+  subst J. split; [|reflexivity].
+  apply sorted_ext; [exact SI|exact SI0|].
+  assert (Hu0 : forall i, nth i u0 false = false).
+  { intro i. rewrite Na0, nth_st_of. destruct (i <? M), (mem i J0); reflexivity. }
+  assert (Hu : forall i, nth i u false = false).
+  { intro i. rewrite Na, nth_st_of. destruct (i <? M), (mem i J0); reflexivity. }
+  intro x. rewrite <- !mem_In.
+  specialize (Nc0 x). specialize (Nc x). rewrite Hu0 in Nc0. rewrite Hu in Nc.
+  cbn [orb] in Nc0, Nc. rewrite <- Nc0, <- Nc. tauto.
+Qed.
+
+Section Complete.
+Variable K : Type.
+Variables (k0 k1 : K) (kadd kmul ksub : K -> K -> K) (kopp : K -> K).
+Variable kzero : K -> bool.
+Hypothesis Hring : ring_ok K k0 k1 kadd kmul ksub kopp kzero.
+
+Let Rth : ring_theory k0 k1 kadd kmul ksub kopp (@eq K) := proj1 Hring.
+Add Ring Kring3 : Rth.
+
+Local Notation cm := (coef_mono K k0 k1 kopp).
+Local Notation cp := (coef_poly K k0 k1 kadd kmul kopp).
+Local Notation ksum := (@ksum K k0 kadd _).
+Local Notation poly_eq := (poly_eq K ksub kzero).
+Local Notation poly_in_range := (poly_in_range K).
+Local Notation poly_sorted := (poly_sorted K).
+Local Notation poly_normal := (poly_normal K).
+Local Notation poly_nonzero := (poly_nonzero K k0).
+
+Definition kunit (e : K) : Prop := e = k1 \/ e = kopp k1.
+
+Lemma kunit_cancel : forall c e, kunit e -> kmul c e = k0 -> c = k0.
+Proof.
+  intros c e [E|E] H; subst e.
+  - rewrite <- H. ring.
+  - transitivity (kopp (kmul c (kopp k1))); [ring|]. rewrite H. ring.
+Qed.
+
+Lemma mono_compare_lt_facts : forall m0 m, mono_compare m0 m = Lt -> length m0 <= length m /\ m <> m0.
+Proof.
+  intros m0 m H. split.
+  - unfold mono_compare in H. destruct (Nat.compare (length m0) (length m)) eqn:E; try discriminate.
+    + apply Nat.compare_eq_iff in E. lia.
+    + apply Nat.compare_lt_iff in E. lia.
+  - intro E. subst m. rewrite AlgebraBasics.mono_compare_refl in H. discriminate.
+Qed.
+
+(** for every normal-ordered monomial m0 there is a pair of basis states on which m0 has
+    matrix element +-1 while every polynomial made of normal-ordered monomials that come
+    later in the map order has matrix element 0 *)
+Lemma head_point : forall M m0, mono_normal m0 -> mono_in_range M m0 ->
+  exists s0 t0 e, length s0 = M /\ length t0 = M /\ kunit e /\ cm m0 s0 t0 = e /\
+  forall p : poly K, poly_normal p -> (forall mc, In mc p -> mono_compare m0 (fst mc) = Lt) ->
+  cp p s0 t0 = k0.
+Proof.
+  intros M m0 Hn Hr. destruct (normal_split m0 Hn) as [I0 [J0 [E0 [SI0 SJ0]]]].
+  assert (RI : forall i, In i I0 -> i < M).
+  { intros i Hi. unfold mono_in_range in Hr. rewrite Forall_forall in Hr.
+    apply (Hr (cdag i)). subst m0. apply in_or_app. left. apply in_map; exact Hi. }
+  assert (RJ : forall j, In j J0 -> j < M).
+  { intros j Hj. unfold mono_in_range in Hr. rewrite Forall_forall in Hr.
+    apply (Hr (cann j)). subst m0. apply in_or_app. right. apply in_map; exact Hj. }
+  destruct (sep_exists M I0 J0 SI0 SJ0 RI RJ) as [sg0 [t0 Ex]].
+  exists (st_of M J0), t0, (if sg0 then kopp k1 else k1).
+  split; [apply st_of_length|]. split.
+  { apply act_mono_length in Ex. rewrite Ex. apply st_of_length. }
+  split; [destruct sg0; [right|left]; reflexivity|].
+  split.
+  { subst m0. apply (cm_unit K k0 k1 kopp). exact Ex. }
+  intros p Hp Hlt. rewrite (cp_ksum K k0 k1 kadd kmul kopp). apply (ksum_zero_ext K k0 k1 kadd kmul ksub kopp kzero Hring).
+  intros [m c] Hin. cbn [fst snd].
+  destruct (mono_compare_lt_facts m0 m (Hlt _ Hin)) as [Hlen Hne].
+  unfold poly_normal in Hp. rewrite Forall_forall in Hp. specialize (Hp _ Hin). cbn [fst] in Hp.
+  destruct (normal_split m Hp) as [I [J [E [SI SJ]]]].
+  assert (Z : cm m (st_of M J0) t0 = k0); [|rewrite Z; ring].
+  unfold coef_mono.
+  destruct (act_mono m (st_of M J0)) as [[[sg t']|]| | | |] eqn:Ea; try reflexivity.
+  destruct (state_eqb t' t0) eqn:Et; [|reflexivity].
+  apply state_eqb_eq in Et. subst t'. exfalso. apply Hne.
+  subst m m0. rewrite !app_length, !map_length in Hlen.
+  destruct (sep_unique M I0 J0 I J sg0 sg t0 SI0 SJ0 SI SJ Hlen Ex Ea) as [EI EJ].
+  subst; reflexivity.
+Qed.
+
+Lemma sorted_keys_above : forall (p : poly K) m c, poly_sorted ((m, c) :: p) ->
+  forall mc, In mc p -> mono_compare m (fst mc) = Lt.
+Proof.
+  induction p as [|[m' c'] p IH]; intros m c H mc Hin; [destruct Hin|].
+  change (mono_compare m m' = Lt /\ poly_sorted ((m', c') :: p)) in H. destruct H as [H1 H2].
+  destruct Hin as [E|Hin]; [subst mc; exact H1|].
+  eapply mono_compare_lt_trans; [exact H1|]. apply (IH m' c' H2 mc Hin).
+Qed.
+
+Lemma poly_sorted_tail : forall (p : poly K) mc, poly_sorted (mc :: p) -> poly_sorted p.
+Proof. intros p [m c] H. cbn [PolySem.poly_sorted] in H. destruct H as [_ H]. exact H. Qed.
+
+(** two well-formed maps with the same matrix are the same map *)
+Lemma complete_eq : forall (M : nat) (a b : poly K),
+  poly_sorted a -> poly_sorted b -> poly_normal a -> poly_normal b ->
+  poly_nonzero a -> poly_nonzero b -> poly_in_range M a -> poly_in_range M b ->
+  (forall s t, length s = M -> length t = M -> cp a s t = cp b s t) -> a = b.
+Proof.
+  intros M. induction a as [|[ma ca] a IH]; intros b Sa Sb Na Nb Za Zb Ra Rb H.
+  - destruct b as [|[mb cb] b]; [reflexivity|]. exfalso.
+    destruct (head_point M mb (Forall_inv Nb) (Forall_inv Rb)) as [s0 [t0 [e [Ls [Lt [Ue [Ee Hz]]]]]]].
+    specialize (H s0 t0 Ls Lt). rewrite cp_cons, cp_nil in H. cbn [fst] in Ee. rewrite Ee in H.
+    rewrite (Hz b (Forall_inv_tail Nb) (sorted_keys_above b mb cb Sb)) in H.
+    apply (Forall_inv Zb). cbn [snd]. apply (kunit_cancel cb e Ue). rewrite H. ring.
+  - destruct b as [|[mb cb] b].
+    + exfalso.
+      destruct (head_point M ma (Forall_inv Na) (Forall_inv Ra)) as [s0 [t0 [e [Ls [Lt [Ue [Ee Hz]]]]]]].
+      specialize (H s0 t0 Ls Lt). rewrite cp_cons, cp_nil in H. cbn [fst] in Ee. rewrite Ee in H.
+      rewrite (Hz a (Forall_inv_tail Na) (sorted_keys_above a ma ca Sa)) in H.
+      apply (Forall_inv Za). cbn [snd]. apply (kunit_cancel ca e Ue). rewrite <- H. ring.
+    + destruct (mono_compare ma mb) eqn:C.
+      * apply AlgebraBasics.mono_compare_eq in C. subst mb.
+        destruct (head_point M ma (Forall_inv Na) (Forall_inv Ra)) as [s0 [t0 [e [Ls [Lt [Ue [Ee Hz]]]]]]].
+        assert (Ec : ca = cb).
+        { pose proof (H s0 t0 Ls Lt) as H0. rewrite !cp_cons in H0. cbn [fst] in Ee. rewrite Ee in H0.
+          rewrite (Hz a (Forall_inv_tail Na) (sorted_keys_above a ma ca Sa)) in H0.
+          rewrite (Hz b (Forall_inv_tail Nb) (sorted_keys_above b ma cb Sb)) in H0.
+          assert (D : ksub ca cb = k0).
+          { apply (kunit_cancel _ e Ue).
+            transitivity (ksub (kadd (kmul ca e) k0) (kadd (kmul cb e) k0)); [ring|].
+            rewrite H0. ring. }
+          transitivity (kadd cb (ksub ca cb)); [ring|]. rewrite D. ring. }
+        subst cb. f_equal.
+        apply IH; try (eapply poly_sorted_tail; eassumption);
+          try (eapply Forall_inv_tail; eassumption).
+        intros s t Ls' Lt'. pose proof (H s t Ls' Lt') as H1. rewrite !cp_cons in H1.
+        transitivity (ksub (kadd (kmul ca (cm ma s t)) (cp a s t)) (kmul ca (cm ma s t))); [ring|].
+        rewrite H1. ring.
+      * exfalso.
+        destruct (head_point M ma (Forall_inv Na) (Forall_inv Ra)) as [s0 [t0 [e [Ls [Lt [Ue [Ee Hz]]]]]]].
+        specialize (H s0 t0 Ls Lt). rewrite cp_cons in H. cbn [fst] in Ee. rewrite Ee in H.
+        rewrite (Hz a (Forall_inv_tail Na) (sorted_keys_above a ma ca Sa)) in H.
+        rewrite (Hz ((mb, cb) :: b) Nb) in H.
+        { apply (Forall_inv Za). cbn [snd]. apply (kunit_cancel ca e Ue). rewrite <- H. ring. }
+        intros mc [E|Hin]; [subst mc; exact C|].
+        eapply mono_compare_lt_trans; [exact C|]. apply (sorted_keys_above b mb cb Sb mc Hin).
+      * exfalso. apply mono_compare_gt_lt in C.
+        destruct (head_point M mb (Forall_inv Nb) (Forall_inv Rb)) as [s0 [t0 [e [Ls [Lt [Ue [Ee Hz]]]]]]].
+        specialize (H s0 t0 Ls Lt). rewrite (cp_cons _ _ _ _ _ _ mb) in H. cbn [fst] in Ee. rewrite Ee in H.
+        rewrite (Hz b (Forall_inv_tail Nb) (sorted_keys_above b mb cb Sb)) in H.
+        rewrite (Hz ((ma, ca) :: a) Na) in H.
+        { apply (Forall_inv Zb). cbn [snd]. apply (kunit_cancel cb e Ue). rewrite H. ring. }
+        intros mc [E|Hin]; [subst mc; exact C|].
+        eapply mono_compare_lt_trans; [exact C|]. apply (sorted_keys_above a ma ca Sa mc Hin).
+Qed.
+
+Lemma poly_eq_complete_gen : forall (M : nat) (a b : poly K),
+  poly_sorted a -> poly_sorted b -> poly_normal a -> poly_normal b ->
+  poly_nonzero a -> poly_nonzero b -> poly_in_range M a -> poly_in_range M b ->
+  (forall s t, length s = M -> length t = M -> cp a s t = cp b s t) ->
+  poly_eq true a b = Done true.
+Proof.
+  intros M a b Sa Sb Na Nb Za Zb Ra Rb H.
+  rewrite (complete_eq M a b Sa Sb Na Nb Za Zb Ra Rb H).
+  apply (poly_eq_refl K k0 k1 kadd kmul ksub kopp kzero Hring).
+Qed.
+
+End Complete.
+
+Theorem poly_eq_complete : forall (K : Type) (k0 k1 : K) (kadd kmul ksub : K -> K -> K) (kopp : K -> K)
+  (kzero : K -> bool), poly_eq_complete_stmt K k0 k1 kadd kmul ksub kopp kzero.
+Proof.
+  intros K k0 k1 kadd kmul ksub kopp kzero Hring _.
+  apply (poly_eq_complete_gen K k0 k1 kadd kmul ksub kopp kzero Hring).
+Qed.
+
+(** * Examples: the hypotheses are satisfiable, the statements are not vacuous *)
+
+Example pmul_c0_cdag0 :
+  pmul Z Z.add Z.mul Z.opp (fun c => Z.eqb c 0) (p_c Z 1%Z 0) (p_cdag Z 1%Z 0) =
+  Done [([], 1%Z); ([cdag 0; cann 0], (-1)%Z)].
+Proof. vm_compute. reflexivity. Qed.
+
+Example pmul_n0_n0 :
+  pmul Z Z.add Z.mul Z.opp (fun c => Z.eqb c 0) (p_n Z 1%Z 0) (p_n Z 1%Z 0) = Done (p_n Z 1%Z 0).
+Proof. vm_compute. reflexivity. Qed.
+
+Example commutes_n0_n1 :
+  commutes Z Z.add Z.mul Z.sub Z.opp (fun c => Z.eqb c 0) true (p_n Z 1%Z 0) (p_n Z 1%Z 1) = Done true.
+Proof. vm_compute. reflexivity. Qed.
+
+Example commutes_c0_n0 :
+  commutes Z Z.add Z.mul Z.sub Z.opp (fun c => Z.eqb c 0) true (p_c Z 1%Z 0) (p_n Z 1%Z 0) = Done false.
+Proof. vm_compute. reflexivity. Qed.
+
+Example in_range_example : poly_in_range Z 2 (p_n_offdiag Z 1%Z 0 1).
+Proof. repeat constructor. Qed.
+
+(** pmul_sound instantiated: <10| c^+_0 c_1 |01> computed as a matrix product over the 4 states *)
+Example pmul_sound_instance :
+  ksum Z 0%Z Z.add (all_states 2)
+       (fun u => Z.mul (coef_poly Z 0%Z 1%Z Z.add Z.mul Z.opp (p_cdag Z 1%Z 0) u [true; false])
+                       (coef_poly Z 0%Z 1%Z Z.add Z.mul Z.opp (p_c Z 1%Z 1) [false; true] u)) = 1%Z.
+Proof.
+  rewrite <- (pmul_sound Z 0%Z 1%Z Z.add Z.mul Z.sub Z.opp _ Z_ring_ok 2
+                (p_cdag Z 1%Z 0) (p_c Z 1%Z 1) [([cdag 0; cann 1], 1%Z)]);
+    try reflexivity; repeat constructor.
+Qed.
+
+(** a well-formed map in the sense of poly_eq_complete *)
+Example complete_hyps :
+  let a : poly Z := [([cdag 0], 2%Z); ([cdag 0; cann 1], 3%Z)] in
+  poly_sorted Z a /\ poly_normal Z a /\ poly_nonzero Z 0%Z a /\ poly_in_range Z 2 a.
+Proof.
+  cbv zeta. split; [cbn; auto|]. split; [repeat constructor|].
+  split; [repeat constructor; discriminate|repeat constructor].
+Qed.
